@@ -113,8 +113,9 @@ func (el *eventloop) closeConns() {
 }
 
 type connWithCallback struct {
-	c  *conn
-	cb func()
+	c   *conn
+	cb  func()
+	err error // why the connection couldn't be added to the poller, set before cb is called
 }
 
 func (el *eventloop) enroll(c net.Conn, addr net.Addr, ctx any) (resCh chan RegisteredResult, err error) {
@@ -206,6 +207,10 @@ func (el *eventloop) enroll(c net.Conn, addr net.Addr, ctx any) (resCh chan Regi
 			resCh <- RegisteredResult{Err: err}
 			return
 		}
+		if ccb.err != nil {
+			resCh <- RegisteredResult{Err: ccb.err}
+			return
+		}
 
 		resCh <- RegisteredResult{Conn: gc}
 	})
@@ -244,13 +249,25 @@ func (el *eventloop) register(a any) error {
 	c, ok := a.(*conn)
 	if !ok {
 		ccb := a.(*connWithCallback)
-		c = ccb.c
 		defer ccb.cb()
+		// The one who is waiting for this registration must learn that there is no
+		// connection when it fails, instead of being handed a closed one.
+		if ccb.err = el.addToPoller(ccb.c); ccb.err != nil {
+			return ccb.err
+		}
+		return el.open0(ccb.c)
 	}
 	return el.register0(c)
 }
 
 func (el *eventloop) register0(c *conn) error {
+	if err := el.addToPoller(c); err != nil {
+		return err
+	}
+	return el.open0(c)
+}
+
+func (el *eventloop) addToPoller(c *conn) error {
 	addEvents := el.poller.AddRead
 	if el.engine.opts.EdgeTriggeredIO {
 		addEvents = el.poller.AddReadWrite
@@ -260,6 +277,10 @@ func (el *eventloop) register0(c *conn) error {
 		c.release()
 		return err
 	}
+	return nil
+}
+
+func (el *eventloop) open0(c *conn) error {
 	el.connections.addConn(c, el.idx)
 	if c.isDatagram && c.remote != nil {
 		return nil
